@@ -63,7 +63,13 @@ type Qual func(d *Dep) string
 // Render writes the type as source text.
 func (t *T) Render(q Qual) string {
 	switch t.Kind {
-	case KBasic, KLocal, KTParam:
+	case KLocal:
+		// q(nil) is the qualifier of the source package itself ("" inside it)
+		if lp := q(nil); lp != "" {
+			return lp + "." + t.Name + renderArgs(t.Args, q)
+		}
+		return t.Name + renderArgs(t.Args, q)
+	case KBasic, KTParam:
 		return t.Name + renderArgs(t.Args, q)
 	case KPkg:
 		qq := q(t.Pkg)
